@@ -434,6 +434,16 @@ with exec (n : nat) (fn : bool) (s : stmt) (σ : state) {struct n} : res (outcom
                              end
                  end;
         OK (OState st_error, σ2)
+    | SUnsetWild o pre =>
+        (* variable/header.go: for key := range Header { if HasPrefixFold(key, name) { delete } }; UnassignPrefix *)
+        OK (ONorm, set_hdrs (hdel_wild o pre (hdrs σ)) σ)
+    | SSynthetic gb e =>
+        (* assign.Assign(&value.String{}, val); ctx.Object.Body = reader of it *)
+        do (r, σ1) <- eval n' dflt_mode e σ;
+        match lookup gb (globals σ1) with
+        | Some l => do σ2 <- assign_cell false l AEq r σ1; OK (ONorm, σ2)
+        | None => Crash
+        end
     | SSwitch c cases d =>
         do (lc, σ1) <- eval n' dflt_mode c σ;
         do vc <- load σ1 lc;
